@@ -426,6 +426,15 @@ fn random_col(rng: &mut Rng, d: Dialect, name: &str) -> Col {
     Col { name: name.into(), ty, specs }
 }
 
+/// Names are identifiers like any other: now and then one that needs its quoting.
+fn odd(rng: &mut Rng, base: &str) -> String {
+    if rng.chance(1, 6) {
+        format!("{base}{}", rng.pick(&["\"", "`", " x", "'", "\"\""]))
+    } else {
+        base.to_string()
+    }
+}
+
 fn random_fk(rng: &mut Rng, name: &str) -> Fk {
     let two = rng.chance(1, 4);
     Fk {
@@ -543,18 +552,19 @@ fn random_stmt(rng: &mut Rng, d: Dialect) -> S {
             },
             "tb".into(),
         ),
-        7 => S::DropIndex("ix1".into(), "tb".into(), pg && rng.coin()),
+        7 => S::DropIndex(odd(rng, "ix1"), odd(rng, "tb"), pg && rng.coin()),
         8 => {
             if rng.coin() {
-                S::FkCreate(random_fk(rng, "fk1"), "tb".into())
+                let name = odd(rng, "fk1");
+                S::FkCreate(random_fk(rng, &name), odd(rng, "tb"))
             } else {
-                S::FkDrop("fk1".into(), "tb".into())
+                S::FkDrop(odd(rng, "fk1"), odd(rng, "tb"))
             }
         }
         9 | 10 => S::TypeCreate(if rng.chance(1, 4) { Some("sch".into()) } else { None }, "mood".into(), (0..1 + rng.below(3)).map(|i| format!("l{i}'x")).collect()),
         11 => S::TypeAddValue("mood".into(), "new'v".into(), rng.coin(), if rng.coin() { Some((rng.coin(), "l0".into())) } else { None }),
         12 => S::TypeRenameValue("mood".into(), "l0".into(), "l9".into()),
-        13 => S::TypeDrop((0..1 + rng.below(2)).map(|i| format!("ty{i}")).collect(), rng.coin(), if rng.coin() { Some(rng.coin()) } else { None }),
+        13 => S::TypeDrop((0..1 + rng.below(2)).map(|i| odd(rng, &format!("ty{i}"))).collect(), rng.coin(), if rng.coin() { Some(rng.coin()) } else { None }),
         14 => S::ExtCreate("ltree".into(), if rng.coin() { Some("public".into()) } else { None }, if rng.coin() { Some("v2".into()) } else { None }, rng.coin(), rng.coin()),
         _ => S::ExtDrop("ltree".into(), rng.coin(), if rng.coin() { Some(rng.coin()) } else { None }),
     }
